@@ -24,6 +24,7 @@ META["claim"] += " " + "Also: look-alike hosts with the domain's dot replaced, a
 META["claim"] += " " + "Round 3b: Host-header override to and from the cookie's domain; Set-Cookie data of 5-12 kB per response."
 META["claim"] += " " + 'Round 4: IPv6 literal as cookie domain and target; one custom-header list object passed to every connection of a history (it must come back unchanged).'
 META["claim"] += " " + 'Rounds 6-7: nine spellings of the Domain attribute, commas in values; empty values (sent as name=, winning when latest); the Domain attribute on one of two Set-Cookie lines only (the other cookie left out of the comparison).'
+META["claim"] += " " + 'Round 8: names ending in a digit; two handshakes finishing at the same time for a domain already in the jar.'
 
 DOMAINS = ["x.t", "X.T", ".x.t", "s.x.t", "y.t", "t", None, "::1"]
 PROBES = ["x.t", "X.t", "s.x.t", "ax.t", "y.t", "t", "x-t", "s-x.t", "sxx.t", "[::1]", "[::2]"]
